@@ -124,21 +124,21 @@ Definition norm_ivs (l : list citem) : list (Z * Z) :=
 Definition norm_cset (cs : cset) : cset :=
   mkcset (cs_neg cs) (map (fun ab : Z * Z => let '(a, b) := ab in CRange a b) (norm_ivs (cs_items cs))).
 
-Fixpoint seq_app (a b : re) : re :=
+Fixpoint rseq_app (a b : re) : re :=
   match a with
   | REps => b
-  | RSeq x y => RSeq x (seq_app y b)
+  | RSeq x y => RSeq x (rseq_app y b)
   | _ => match b with REps => a | _ => RSeq a b end
   end.
 Fixpoint rcopies (n : nat) (a : re) : re :=
-  match n with O => REps | S k => seq_app a (rcopies k a) end.
+  match n with O => REps | S k => rseq_app a (rcopies k a) end.
 
 Fixpoint norm (r : re) : re :=
   match r with
   | REps => REps
   | REnd => REnd
   | RChar cs => RChar (norm_cset cs)
-  | RSeq a b => seq_app (norm a) (norm b)
+  | RSeq a b => rseq_app (norm a) (norm b)
   | RAlt a b => RAlt (norm a) (norm b)
   | RGroup n a => RGroup n (norm a)
   | RRep lo hi a =>
